@@ -1050,3 +1050,9 @@ def vec_truncate(it, args, n, f):
         v.obj.items = v.obj.items[:k.n]
         return UnitV()
     raise Unrecognised("truncate of %r to %r" % (v, k))
+
+
+@model("<usize as std::convert::From<bool>>::from", "<u8 as std::convert::From<bool>>::from", "<u32 as std::convert::From<bool>>::from",
+       "<u64 as std::convert::From<bool>>::from", doc="false→0, true→1")
+def int_from_bool(it, args, n, f):
+    return IntV(1 if it.truth(args[0]) else 0)
